@@ -1372,6 +1372,366 @@ def lean_io_width(w, ops):
 
 
 # ------------------------------------------------------------------------------------------------
+# tie 2c: printing / simplifying one view must not change the ref-spec of its siblings (python level)
+# ------------------------------------------------------------------------------------------------
+# item = (qual, dir, vt, w, base_ops, [suffix_ops...], order)   siblings = base + each suffix applied to the SAME base object
+
+
+def _sibling_task(item):
+    qual, d, vt, w, base_ops, suffixes, order = item
+    import_cohdl()
+    root = _mk_root(qual, d, vt, w)
+    base = root
+    for op in base_ops:
+        base = _apply_view(base, op)
+    sibs = [base]
+    for suf in suffixes:
+        cur = base
+        for op in suf:
+            cur = _apply_view(cur, op)
+        sibs.append(cur)
+    before = [_describe_view(root, v, w) for v in sibs]
+    diffs = []
+    for n in order:
+        for ref in sibs[n]._ref_spec:      # what `_format_ref` of the VHDL back end does when it prints this view
+            ref.simplify()
+        after = [_describe_view(root, v, w) for v in sibs]
+        for i, (b, a) in enumerate(zip(before, after)):
+            if a != b:
+                diffs.append((n, i, b[0], a[0]))
+        if diffs:
+            break
+    return [b[0] for b in before], [f for b in before for f in b[1]], diffs
+
+
+def gen_nested_base(rng, W, xt, depth, casts=True):
+    """chain of `depth` slices with a non-zero offset at every level (optionally casts in between); final width >= 2"""
+    ops, cur, kind = [], W, xt
+    for lvl in range(depth):
+        minw = 2 + (depth - 1 - lvl)
+        lo = rng.randrange(1, cur - minw + 1)
+        hi = rng.randrange(lo + minw - 1, cur)
+        ops.append(("slice", hi, lo))
+        cur, kind = hi - lo + 1, "bv"
+        if casts and rng.random() < 0.3:
+            kind = rng.choice(["uns", "sgn", "bv"])
+            ops.append(("cast", kind))
+    return ops, cur, kind
+
+
+def gen_suffixes(rng, n, kind, count, write=False):
+    """views derived from one base object of width n: casts, index, sub-slices (+casts), iteration"""
+    cands = [[("cast", c)] for c in ("uns", "sgn", "bv") if c != kind]
+    cands += [[("index", rng.randrange(n))], [("cast", rng.choice(["uns", "sgn"])), ("index", rng.randrange(n))]]
+    for _ in range(2):
+        h = rng.randrange(n)
+        lo = rng.randrange(h + 1)
+        cands += [[("slice", h, lo)], [("slice", h, lo), ("cast", rng.choice(["uns", "sgn"]))],
+                  [("cast", rng.choice(["uns", "sgn"])), ("slice", h, lo)]]
+    if not write:
+        cands += [[("iterall",)], [("cast", rng.choice(["uns", "sgn"])), ("iterall",)]]
+    rng.shuffle(cands)
+    out = cands[:count]
+    if not any(len(c) == 1 and c[0][0] == "cast" for c in out):
+        out[0] = [("cast", rng.choice([c for c in ("uns", "sgn", "bv") if c != kind]))]
+    return out
+
+
+def tie_siblings(ctx: Ctx):
+    rng = ctx.rng
+    items = []
+    for _ in range(ctx.scale(300, 4000)):
+        qual = rng.choice(QKS)
+        d = rng.choice(DIRS) if qual == "port" else "-"
+        vt = rng.choice(["bv", "uns", "sgn"])
+        W = rng.choice([6, 8, 12])
+        depth = rng.choice([1, 2, 2, 3])
+        base_ops, n, kind = gen_nested_base(rng, W, vt, depth)
+        sufs = [[o for o in sfx if o[0] != "iterall"] or [("iter", 0)] for sfx in gen_suffixes(rng, n, kind, rng.randrange(2, 6))]
+        order = list(range(len(sufs) + 1))
+        rng.shuffle(order)
+        items.append((qual, d, vt, W, base_ops, sufs, order))
+    items.insert(0, ("signal", "-", "bv", 8, [("slice", 7, 4), ("slice", 1, 0)], [[("cast", "uns")], [("cast", "sgn")]], [0, 1, 2]))
+    lines, owner = [], []
+    for n, (qual, d, vt, W, base_ops, sufs, order) in enumerate(items):
+        for suf in [[]] + sufs:
+            lines.append(view_line(vt, W, base_ops + suf))
+            owner.append(n)
+    ans = lean_io.query("C13", lines)
+    model = {}
+    for n, a in zip(owner, ans):
+        model.setdefault(n, []).append(a)
+    impl = fork_map(_sibling_task, items, fresh=False, chunk=32)
+    bad = 0
+    reported = set()
+    for n, (it, r) in enumerate(zip(items, impl)):
+        if r[0] != "ok":
+            raise InfraError(f"sibling task failed: {r[1]}\n{r[2]}")
+        before, flags, diffs = r[1]
+        qual, d, vt, W, base_ops, sufs, order = it
+        ctx.case(key=("sib",) + tuple(map(str, it)), nontrivial=len(base_ops) >= 2, kind=f"siblings:depth={sum(1 for o in base_ops if o[0] == 'slice')}",
+                 sample={"base": "".join(op_py(o) for o in base_ops), "siblings": ["".join(op_py(o) for o in sfx) for sfx in sufs], "order": order})
+        if before == model[n] and not flags and not diffs:
+            continue
+        bad += 1
+        base_s = f"{qual}[{vt}[{W}]]" + "".join(op_py(o) for o in base_ops)
+        if diffs:
+            pr, i, b, a = diffs[0]
+            names = ["base"] + ["base" + "".join(op_py(o) for o in sfx) for sfx in sufs]
+            sig = f"siblings:{vt}[{W}]:" + " ".join(op_tok(o) for o in base_ops) + "|" + names[pr] + ">" + names[i]
+            text = (f"base = {base_s}: simplifying (= printing) the ref-spec of `{names[pr]}` changes what `{names[i]}` denotes: "
+                    f"`{b}` -> `{a}` (kind cells ref-spec-cells)")
+        else:
+            sig = f"siblings:{vt}[{W}]:" + " ".join(op_tok(o) for o in base_ops) + "|model"
+            text = f"base = {base_s}: views {before} {flags}, model {model[n]}"
+        if sig in reported or len(reported) >= 3:
+            continue
+        reported.add(sig)
+        ctx.report(sig, text, {"tie": "siblings", "item": it, "model": model[n], "before": before, "flags": flags, "diffs": diffs})
+    ctx.obligation("correspondence: every view derived from one (nested) slice object keeps kind, cells, root, qualifier and the cells its "
+                   "ref-spec denotes (= Lean `resolve`) when the ref-specs of its siblings are simplified (printed) in any order",
+                   bad == 0, detail=f"{len(items)} sibling families, {bad} with differences")
+
+
+# ------------------------------------------------------------------------------------------------
+# tie 3b: several views of ONE nested slice object used as different outputs / targets of one design
+# ------------------------------------------------------------------------------------------------
+
+SHARED_SRC = """
+import cohdl
+from cohdl import std, Bit, BitVector, Unsigned, Signed, Port, Signal
+
+VIEWS = {{}}
+
+class W(cohdl.Entity):
+    clk = Port.input(Bit)
+    x = Port.input({XT})
+    a = Port.input(BitVector[{W}])
+    y = Port.output(BitVector[{W}])
+{PORTS}
+    def architecture(self):
+{ARCHDEFS}
+        @std.concurrent
+        def logic():
+{FNDEFS_R}
+{READS}
+        @std.sequential(std.Clock(self.clk))
+        def proc():
+{FNDEFS_W}
+            self.y <<= self.a
+{WRITES}
+"""
+
+KNAME = {"bv": "BitVector", "uns": "Unsigned", "sgn": "Signed"}
+
+
+def final_kind(kind, n, suffix):
+    for o in suffix:
+        if o[0] == "slice":
+            kind, n = "bv", o[1] - o[2] + 1
+        elif o[0] == "cast":
+            kind = o[1]
+        elif o[0] == "index":
+            kind, n = "bit", 1
+    return kind, n
+
+
+def build_shared_design(W, xt, base_ops, r_sufs, r_order, wbase_ops, w_sufs, placement):
+    n, kind = final_kind(xt, W, base_ops)[1], final_kind(xt, W, base_ops)[0]
+    wn = final_kind("bv", W, wbase_ops)[1]
+    ports, defs_r, defs_w, reads, writes, outs = [], [], [], [], [], []
+    ind_a, ind_f = " " * 8, " " * 12
+    recs = []
+    defs_r.append(f"base = {py_chain('self.x', base_ops)}")
+    recs.append('VIEWS["base"] = (self.x, base)')
+    for j, suf in enumerate(r_sufs):
+        it_all = suf and suf[-1][0] == "iterall"
+        ops = [o for o in suf if o[0] != "iterall"]
+        defs_r.append(f"v{j} = {py_chain('base', ops)}")
+        recs.append(f'VIEWS["v{j}"] = (self.x, v{j})')
+        k, m = final_kind(kind, n, ops)
+        if it_all:
+            ports.append(f"    o{j} = Port.output(BitVector[{m}])")
+            outs.append({"port": f"o{j}", "mode": "iterall", "ops": base_ops + ops, "signed": False, "expr": f"[b for b in base{''.join(op_py(o) for o in ops)}]"})
+        else:
+            ports.append(f"    o{j} = Port.output({'Bit' if k == 'bit' else KNAME[k] + '[' + str(m) + ']'})")
+            outs.append({"port": f"o{j}", "mode": "read", "ops": base_ops + ops, "signed": k == "sgn", "expr": "base" + "".join(op_py(o) for o in ops)})
+    for j in r_order:
+        if outs[j]["mode"] == "iterall":
+            reads.append(f"for k{j}, b{j} in enumerate(v{j}):\n{ind_f}    self.o{j}[k{j}] <<= b{j}")
+        else:
+            reads.append(f"self.o{j} <<= v{j}")
+    defs_w.append(f"wbase = {py_chain('self.y', wbase_ops)}")
+    recs.append('VIEWS["wbase"] = (self.y, wbase)')
+    wouts = []
+    for j, suf in enumerate(w_sufs):
+        defs_w.append(f"w{j} = {py_chain('wbase', suf)}")
+        recs.append(f'VIEWS["w{j}"] = (self.y, w{j})')
+        k, m = final_kind("bv", wn, suf)
+        if k == "bit":
+            ports.append(f"    wb{j} = Port.input(Bit)")
+            src = f"self.wb{j}"
+        elif k == "sgn":
+            ports.append(f"    wb{j} = Port.input(BitVector[{m}])")
+            src = f"self.wb{j}.signed"
+        else:
+            ports.append(f"    wb{j} = Port.input({KNAME[k]}[{m}])")
+            src = f"self.wb{j}"
+        writes.append(f"w{j}.next = {src}")
+        wouts.append({"in": f"wb{j}", "ops": wbase_ops + suf, "width": m, "expr": "wbase" + "".join(op_py(o) for o in suf) + f" <<= wb{j}"})
+    arch = placement == "arch"
+    src = SHARED_SRC.format(
+        XT=f"{KNAME[xt]}[{W}]", W=W, PORTS="\n".join(ports) + "\n",
+        ARCHDEFS="\n".join(ind_a + l for l in (defs_r + defs_w + recs if arch else ["pass"])),
+        FNDEFS_R="\n".join(ind_f + l for l in ([] if arch else defs_r)) or ind_f + "pass",
+        FNDEFS_W="\n".join(ind_f + l for l in ([] if arch else defs_w)) or ind_f + "pass",
+        READS="\n".join(ind_f + l for l in reads), WRITES="\n".join(ind_f + l for l in writes))
+    return {"src": src, "W": W, "xt": xt, "outs": outs, "wouts": wouts, "placement": placement,
+            "descr": f"{placement}: base = x{''.join(op_py(o) for o in base_ops)} on {xt}[{W}]; reads in order "
+                     + ", ".join(outs[j]["expr"] for j in r_order) + f"; wbase = y{''.join(op_py(o) for o in wbase_ops)}; writes in order "
+                     + ", ".join(w["expr"] for w in wouts)}
+
+
+def gen_shared_design(rng):
+    W = rng.choice([6, 8])
+    xt = rng.choice(["bv", "uns", "sgn"])
+    depth = rng.choice([2, 2, 3])
+    base_ops, n, kind = gen_nested_base(rng, W, xt, depth)
+    r_sufs = [[]] + gen_suffixes(rng, n, kind, rng.randrange(2, 6))
+    r_order = list(range(len(r_sufs)))
+    rng.shuffle(r_order)
+    wbase_ops, wn, _ = gen_nested_base(rng, W, "bv", rng.choice([2, 3]), casts=False)
+    w_sufs = [[]] + [s for s in gen_suffixes(rng, wn, "bv", rng.randrange(1, 4), write=True)]
+    rng.shuffle(w_sufs)
+    return build_shared_design(W, xt, base_ops, r_sufs, r_order, wbase_ops, w_sufs, rng.choice(["arch", "fn"]))
+
+
+def _shared_task(item):
+    d, samples = item
+    import_cohdl()
+    from cohdl import std
+    from .common import load_design_module
+    try:
+        mod = load_design_module(d["src"], "c13s")
+        vhdl = std.VhdlCompiler.to_string(mod.W)
+    except BaseException as e:  # noqa
+        return {"ok": False, "errtype": type(e).__name__, "err": str(e)[-300:]}
+    views = {}
+    for name, (root, v) in mod.VIEWS.items():
+        views[name] = _describe_view(root, v, d["W"])
+    des = Design(vhdl)
+    ins = ["x", "a"] + [w["in"] for w in d["wouts"]]
+    for p in ["clk"] + ins:
+        des.set(p, 0)
+    des.initialise()
+    res = []
+    for vals in samples:
+        for p, v in zip(ins, vals):
+            des.set(p, v)
+        des.settle()
+        des.clock("clk")
+        des.settle()
+        res.append([des.get(o["port"]) for o in d["outs"]] + [des.get("y")])
+    return {"ok": True, "vhdl": vhdl, "views": views, "sim": res}
+
+
+def shared_expected(d, cells, wcells, env):
+    exp = []
+    for o, cs in zip(d["outs"], cells):
+        e = sum((((env["x"] >> c) & 1) << j) for j, c in enumerate(cs))
+        if o["signed"] and (e >> (len(cs) - 1)) & 1:
+            e -= 1 << len(cs)
+        exp.append(e)
+    y = env["a"]
+    for w, cs in zip(d["wouts"], wcells):
+        for j, c in enumerate(cs):
+            y = (y & ~(1 << c)) | (((env[w["in"]] >> j) & 1) << c)
+    return exp + [y]
+
+
+def shared_model_cells(designs):
+    lines, owner = [], []
+    for di, d in enumerate(designs):
+        for o in d["outs"]:
+            lines.append(view_line(d["xt"], d["W"], o["ops"]))
+            owner.append((di, "r"))
+        for w in d["wouts"]:
+            lines.append(view_line("bv", d["W"], w["ops"]))
+            owner.append((di, "w"))
+    ans = lean_io.query("C13", lines)
+    cells = [([], []) for _ in designs]
+    for (di, side), a, ln in zip(owner, ans, lines):
+        if a.startswith("reject") or a == "bad-op":
+            raise InfraError(f"generator produced a view the model rejects: {ln} -> {a}")
+        cells[di][0 if side == "r" else 1].append([int(x) for x in a.split(" ")[1].split(".")])
+    return cells
+
+
+def tie_shared(ctx: Ctx):
+    rng = ctx.rng
+    designs = []
+    # the canonical small shapes, both placements, both emission orders
+    for placement in ("arch", "fn"):
+        for r_order in ([0, 1, 2], [2, 1, 0]):
+            designs.append(build_shared_design(8, "bv", [("slice", 7, 4), ("slice", 1, 0)], [[], [("cast", "uns")], [("cast", "sgn")]], r_order,
+                                               [("slice", 7, 2), ("slice", 3, 1)], [[], [("cast", "uns")]] if r_order[0] == 0 else [[("cast", "uns")], []],
+                                               placement))
+    designs += [gen_shared_design(rng) for _ in range(ctx.scale(20, 300))]
+    cells = shared_model_cells(designs)
+    tasks = []
+    for d in designs:
+        W = d["W"]
+        widths = [W, W] + [w["width"] for w in d["wouts"]]
+        samples = [[x, rng.randrange(1 << W)] + [rng.randrange(1 << n) for n in widths[2:]] for x in range(1 << W)]
+        tasks.append((d, samples))
+    res = fork_map(_shared_task, tasks, fresh=True)
+    bad = 0
+    reported = set()
+    for di, ((d, samples), r) in enumerate(zip(tasks, res)):
+        if r[0] != "ok":
+            raise InfraError(f"shared-views task failed: {r[1]}\n{r[2]}")
+        r = r[1]
+        if not r["ok"]:
+            ctx.dist["shared-design-rejected:" + r["errtype"]] += 1
+            continue
+        ctx.case(key=("shared", d["src"]), nontrivial=True, kind=f"shared:{d['placement']}:W={d['W']}", sample={"design": d["descr"]})
+        ins = ["x", "a"] + [w["in"] for w in d["wouts"]]
+        names = [o["port"] for o in d["outs"]] + ["y"]
+        problem = None
+        # python level: after the design was printed every recorded view must still denote the cells it aliases
+        for name, (desc, flags) in sorted(r["views"].items()):
+            f = desc.split(" ")
+            if flags or (not desc.startswith("reject") and f[1] != f[2]):
+                problem = (f"after compilation the ref-spec of view `{name}` denotes cells {f[2]} but the view aliases cells {f[1]} of its root"
+                           + (f" ({'; '.join(flags)})" if flags else ""), {"view": name, "described": desc, "flags": flags})
+                break
+        if problem is None:
+            for vals, obs in zip(samples, r["sim"]):
+                env = dict(zip(ins, vals))
+                exp = shared_expected(d, cells[di][0], cells[di][1], env)
+                obs = [int(o) if isinstance(o, bool) else o for o in obs]
+                if obs != exp:
+                    k = next(i for i, (a, b) in enumerate(zip(obs, exp)) if a != b)
+                    what = d["outs"][k]["expr"] if k < len(d["outs"]) else "the writes through views of wbase"
+                    problem = (f"inputs {env}: port {names[k]} (`{what}`) is {obs[k]}, the cells of the root the model resolves give {exp[k]}",
+                               {"inputs": env, "port": names[k], "expected": exp[k], "observed": obs[k]})
+                    break
+        if problem is None:
+            continue
+        bad += 1
+        sig = "shared:" + d["descr"]
+        if len(reported) >= 2:
+            continue
+        reported.add(sig)
+        ctx.report(sig, f"several views of one nested slice in one design ({d['descr']}): {problem[0]}",
+                   {"tie": "shared", "design": d, "design_source": d["src"], "vhdl": r["vhdl"], **problem[1]})
+    ctx.obligation("correspondence: designs using several views of ONE nested slice object (itself, typed views, sub-index, sub-slices, iteration; "
+                   "read and written, every emission order, views created in the architecture or in the context) access exactly the cells "
+                   "the Lean model resolves (VHDL simulation on all values of x) and leave every view's ref-spec pointing at its cells",
+                   bad == 0, detail=f"{len(tasks)} designs, {bad} with differences")
+
+
+# ------------------------------------------------------------------------------------------------
 # tie 3: emitted names of nested views
 # ------------------------------------------------------------------------------------------------
 
@@ -1596,12 +1956,17 @@ def run(ctx: Ctx):
                 "slices + index/iteration on width 4; non-trivial = >= 2 nested slices and accepted.  (3) write sequences through views; "
                 "non-trivial = >= 2 accepted writes; sessions interleaving view construction (before and after writes) with writes of "
                 "every source kind through root / views / cast setters on bv/uns/sgn roots of all qualifier kinds and unqualified "
-                "vectors, all live views checked after every step; non-trivial = >= 2 source kinds, a view and >= 3 accepted steps.  (4) compiled designs reading/writing nested views, simulated; non-trivial = a view "
-                "with >= 2 nested slices")
+                "vectors, all live views checked after every step; non-trivial = >= 2 source kinds, a view and >= 3 accepted steps; families of sibling views of one (nested) slice object whose "
+                "ref-specs are simplified in every order; non-trivial = nested base.  (4) compiled designs reading/writing nested views, simulated; non-trivial = a view "
+                "with >= 2 nested slices; designs using several views (typed views, sub-index, sub-slices, iteration) of ONE nested slice object "
+                "(depth 2-3, non-zero offsets) as different outputs / write targets in shuffled emission order, views created in the "
+                "architecture or in the context, simulated on all values of x")
     tie_types(ctx)
     tie_views(ctx)
     tie_sessions(ctx)
+    tie_siblings(ctx)
     tie_names(ctx)
+    tie_shared(ctx)
 
 
 def replay(ctx, data):
@@ -1621,6 +1986,47 @@ def replay(ctx, data):
         print("expected:", m)
         print("observed:", p, flags)
         return 0 if (m == p and not flags) else 1
+    if r["tie"] == "siblings":
+        it = tuple_deep(r["item"])
+        it = (it[0], it[1], it[2], it[3], list(it[4]), [list(x) for x in it[5]], list(it[6]))
+        pr = fork_map(_sibling_task, [it], fresh=False)[0]
+        ans = lean_io.query("C13", [view_line(it[2], it[3], it[4] + suf) for suf in [[]] + it[5]])
+        print("expected:", ans)
+        print("observed:", pr[1])
+        return 0 if (pr[0] == "ok" and pr[1][0] == ans and not pr[1][1] and not pr[1][2]) else 1
+    if r["tie"] == "shared":
+        d = r["design"]
+        d["outs"] = [dict(o, ops=[tuple(x) for x in o["ops"]]) for o in d["outs"]]
+        d["wouts"] = [dict(o, ops=[tuple(x) for x in o["ops"]]) for o in d["wouts"]]
+        cells = shared_model_cells([d])[0]
+        W = d["W"]
+        widths = [W, W] + [w["width"] for w in d["wouts"]]
+        samples = [[x, (x * 37 + 11) % (1 << W)] + [(x * 5 + 3) % (1 << n) for n in widths[2:]] for x in range(1 << W)]
+        if "inputs" in r:
+            samples.insert(0, [r["inputs"][p] for p in ["x", "a"] + [w["in"] for w in d["wouts"]]])
+        pr = fork_map(_shared_task, [(d, samples)], fresh=True)[0]
+        if pr[0] != "ok" or not pr[1]["ok"]:
+            print("cannot compile / simulate:", pr[1])
+            return 1
+        rc = 0
+        for name, (desc, flags) in sorted(pr[1]["views"].items()):
+            f = desc.split(" ")
+            if flags or f[1] != f[2]:
+                print(f"view {name}: aliases cells {f[1]}, ref-spec denotes {f[2]} {flags}")
+                rc = 1
+        ins = ["x", "a"] + [w["in"] for w in d["wouts"]]
+        for vals, obs in zip(samples, pr[1]["sim"]):
+            env = dict(zip(ins, vals))
+            exp = shared_expected(d, cells[0], cells[1], env)
+            obs = [int(o) if isinstance(o, bool) else o for o in obs]
+            if obs != exp:
+                print("inputs  :", env)
+                print("expected:", exp)
+                print("observed:", obs)
+                rc = 1
+                break
+        print("design  :", d["descr"])
+        return rc
     if r["tie"] == "session":
         sess = tuple_deep(r["session"])
         sess = (sess[0], sess[1], sess[2], sess[3], list(sess[4]))
